@@ -86,6 +86,17 @@ func writes() []write {
 			_, err := db.UpsertRow(ctx, &Item{Id: 2, Draft: "d", Grp: 1, Name: "c", Opt: nil})
 			return err
 		}},
+		{"tx-update(1:name,2:g2->g1,2:opt)", func(ctx context.Context, db *sqlgen.DB) error {
+			// several rows changed by one commit: delivered as ONE update event with several (before, after) pairs
+			tctx, tx, err := db.WithTx(ctx)
+			if err != nil {
+				return err
+			}
+			db.UpdateRow(tctx, &Item{Id: 1, Draft: "d", Grp: 1, Name: "y", Opt: nil})
+			db.UpdateRow(tctx, &Item{Id: 2, Draft: "d", Grp: 1, Name: "b", Opt: p64(5)})
+			db.UpdateRow(tctx, &Item{Id: 2, Draft: "d", Grp: 1, Name: "b", Opt: nil})
+			return tx.Commit()
+		}},
 		{"upsert(9,g1,a)", func(ctx context.Context, db *sqlgen.DB) error {
 			_, err := db.UpsertRow(ctx, &Item{Id: 9, Draft: "d", Grp: 1, Name: "a", Opt: p64(5)})
 			return err
@@ -185,19 +196,37 @@ func item(c cfg) *explore.Item {
 		bl.SetUpdateDelay(time.Duration(c.Delay) * time.Millisecond)
 		garbled := 0
 		fdb.OnCommit = func(changes []fakesql.Change) {
-			for _, ch := range changes {
-				ev := &replication.BinlogEvent{Header: &replication.EventHeader{}}
-				re := &replication.RowsEvent{Table: &replication.TableMapEvent{Schema: []byte("testdb"), Table: []byte(ch.Table)}}
+			kindOf := func(ch fakesql.Change) replication.EventType {
 				switch {
 				case ch.Before == nil:
-					ev.Header.EventType = replication.WRITE_ROWS_EVENTv2
-					re.Rows = [][]interface{}{binlogRow(ch.After)}
+					return replication.WRITE_ROWS_EVENTv2
 				case ch.After == nil:
-					ev.Header.EventType = replication.DELETE_ROWS_EVENTv2
-					re.Rows = [][]interface{}{binlogRow(ch.Before)}
-				default:
-					ev.Header.EventType = replication.UPDATE_ROWS_EVENTv2
-					re.Rows = [][]interface{}{binlogRow(ch.Before), binlogRow(ch.After)}
+					return replication.DELETE_ROWS_EVENTv2
+				}
+				return replication.UPDATE_ROWS_EVENTv2
+			}
+			for ci := 0; ci < len(changes); ci++ {
+				ch := changes[ci]
+				ev := &replication.BinlogEvent{Header: &replication.EventHeader{}}
+				re := &replication.RowsEvent{Table: &replication.TableMapEvent{Schema: []byte("testdb"), Table: []byte(ch.Table)}}
+				ev.Header.EventType = kindOf(ch)
+				// consecutive changes of one kind on one table in one commit travel in one rows event (as a multi-row
+				// statement does): n rows for inserts / deletes, n (before, after) pairs for updates
+				for {
+					switch ev.Header.EventType {
+					case replication.WRITE_ROWS_EVENTv2:
+						re.Rows = append(re.Rows, binlogRow(ch.After))
+					case replication.DELETE_ROWS_EVENTv2:
+						re.Rows = append(re.Rows, binlogRow(ch.Before))
+					default:
+						re.Rows = append(re.Rows, binlogRow(ch.Before), binlogRow(ch.After))
+					}
+					if ci+1 < len(changes) && changes[ci+1].Table == ch.Table && kindOf(changes[ci+1]) == ev.Header.EventType {
+						ci++
+						ch = changes[ci]
+						continue
+					}
+					break
 				}
 				if c.Fault {
 					kind := rt.Choose(6, true, "event-fault")
